@@ -71,7 +71,7 @@ def op_line(op, v, sr, ex, dlen):
     return '%s %s' % (op, v), None
 
 
-def check_outcome(prop_tags, out, exp, op, key_base, findings, sr, t_pre, v):
+def check_outcome(prop_tags, out, exp, op, key_base, findings, sr, t_pre, v, prop='C01', prefix=''):
     """C01: status / error class / return value against the contract. Returns True if the call
     should have changed the tree as exp.tree"""
     ex = sr.ex
@@ -84,52 +84,52 @@ def check_outcome(prop_tags, out, exp, op, key_base, findings, sr, t_pre, v):
         if not o.ok:
             if exp.status == 'ok_or_utf8' and o.kind.startswith('IoError'):
                 return False
-            findings.append(make_finding('C01', key_base + '|unexpected_err:%s' % o.kind,
+            findings.append(make_finding(prop, key_base + '|unexpected_err:%s' % o.kind,
                                          '%s on %s (%s) must succeed but returned %s' % (op, v, target_class(t_pre, v), o.brief()), sr))
             return False
         # return value
         if exp.ret is not None and op in ('read', 'read_to_string'):
             got = o.value
             if len(got) != len(exp.ret):
-                findings.append(make_finding('C01', key_base + '|wrong_bytes', '%s returned %d bytes, expected %d' % (op, len(got), len(exp.ret)), sr))
+                findings.append(make_finding(prop, key_base + '|wrong_bytes', '%s returned %d bytes, expected %d' % (op, len(got), len(exp.ret)), sr))
             else:
                 m = ex.check(seq_eq(got, exp.ret), 'read bytes')
                 if m is not None:
-                    findings.append(make_finding('C01', key_base + '|wrong_bytes', '%s returned wrong bytes' % op, sr, m))
+                    findings.append(make_finding(prop, key_base + '|wrong_bytes', '%s returned wrong bytes' % op, sr, m))
         elif op == 'metadata':
             if o.value[:2] != exp.ret:
-                findings.append(make_finding('C01', key_base + '|wrong_metadata', 'metadata %r, expected %r' % (o.value[:2], exp.ret), sr))
+                findings.append(make_finding(prop, key_base + '|wrong_metadata', 'metadata %r, expected %r' % (o.value[:2], exp.ret), sr))
         elif op in ('exists', 'is_file', 'is_dir'):
             if o.value is not exp.ret:
-                findings.append(make_finding('C01', key_base + '|wrong_answer', '%s = %r, expected %r' % (op, o.value, exp.ret), sr))
+                findings.append(make_finding(prop, key_base + '|wrong_answer', '%s = %r, expected %r' % (op, o.value, exp.ret), sr))
         elif op == 'read_dir':
-            cands = [(c, sr.w.as_str(sr.paths[c])) for c in t_pre.u.children(v)]
+            cands = [(c, sr.w.as_str(sr.paths[prefix + c])) for c in t_pre.u.children(v)]
             matched, foreign = match_names(ex, o.value, cands)
             if sorted(matched) != sorted(exp.ret) or foreign:
-                findings.append(make_finding('C01', key_base + '|wrong_listing', 'read_dir lists %s + %r, expected %s' % (sorted(matched), foreign, sorted(exp.ret)), sr))
+                findings.append(make_finding(prop, key_base + '|wrong_listing', 'read_dir lists %s + %r, expected %s' % (sorted(matched), foreign, sorted(exp.ret)), sr))
         return True
     # must fail
     if o.ok:
-        findings.append(make_finding('C01', key_base + '|unexpected_ok',
+        findings.append(make_finding(prop, key_base + '|unexpected_ok',
                                      '%s on %s (%s) succeeded although %s' % (op, v, target_class(t_pre, v), exp.why), sr))
         return None
     if exp.errclass is not None and o.kind != exp.errclass:
-        findings.append(make_finding('C01', key_base + '|wrong_kind:%s' % o.kind.split(':')[0],
+        findings.append(make_finding(prop, key_base + '|wrong_kind:%s' % o.kind.split(':')[0],
                                      '%s on %s (%s): %s must be reported as %s, got %s' % (op, v, target_class(t_pre, v), exp.why, exp.errclass, o.kind), sr))
     return False
 
 
-def check_post_state(sr, u, exp_tree, key_base, findings, what, prefix=''):
+def check_post_state(sr, u, exp_tree, key_base, findings, what, prefix='', prop='C01'):
     ex = sr.ex
     snap = snapshot(sr, u, prefix)
     diffs, obligations = compare_tree(sr, u, snap, exp_tree, prefix)
     for v, kind, detail in diffs:
-        findings.append(make_finding('C01', key_base + '|%s:%s@%s' % (what, kind, rel_role(u, v, key_base)),
+        findings.append(make_finding(prop, key_base + '|%s:%s@%s' % (what, kind, rel_role(u, v, key_base)),
                                      '%s: %s %s' % (what, v, detail), sr))
     for v, kind, cond in obligations:
         m = ex.check(cond, 'bytes of ' + v)
         if m is not None:
-            findings.append(make_finding('C01', key_base + '|%s:bytes' % what, '%s: file %s holds wrong bytes' % (what, v), sr, m))
+            findings.append(make_finding(prop, key_base + '|%s:bytes' % what, '%s: file %s holds wrong bytes' % (what, v), sr, m))
     return snap
 
 
